@@ -289,6 +289,22 @@ class Folder:
             return set(out) if isinstance(e, ast.SetComp) else out
         if isinstance(e, ast.Call):
             return self.call(e)
+        if isinstance(e, ast.Lambda):
+            params = [a.arg for a in e.args.args]
+            defaults = [self.ev(d) for d in e.args.defaults]
+            captured = dict(self.env)
+
+            def _lam(*args):
+                vals = list(args) + defaults[len(defaults) - (len(params) - len(args)):] if len(args) < len(params) else list(args)
+                if len(vals) != len(params):
+                    raise Raised("TypeError")
+                saved = self.env
+                self.env = dict(captured, **dict(zip(params, vals)))
+                try:
+                    return self.ev(e.body)
+                finally:
+                    self.env = saved
+            return _lam
         if isinstance(e, ast.Yield):
             self.yields.append(self.ev(e.value) if e.value is not None else None)
             return None
@@ -424,11 +440,13 @@ class Folder:
                 raise Unknown("attribute assignment on %s" % type(obj).__name__)
         elif isinstance(target, ast.Subscript):
             obj = self.ev(target.value)
-            if not isinstance(obj, list):
-                raise Unknown("item assignment on a non-list")
+            if not isinstance(obj, (list, dict)):
+                raise Unknown("item assignment on a %s" % type(obj).__name__)
             try:
                 obj[self.ev(target.slice)] = value
-            except (IndexError, TypeError) as x:
+            except IndexError:
+                raise Raised("IndexError")
+            except TypeError as x:
                 raise Unknown(str(x))
         else:
             raise Unknown("assignment target %s" % _name(target))
